@@ -449,3 +449,38 @@ def r06a(ctx):
 
 def _inside_index_of_division_seq(e):
     return False
+
+
+@rule(
+    "R06h",
+    ["C06", "C13"],
+    """A REQUESTED PARTITION COUNT IS NOT REPORTED WHERE THE PLAN CAN PRODUCE FEWER: a class that overrides `npartitions` to answer with a
+    parameter (the count the user asked for) while its `_lower` builds divisions that are de-duplicated (`unique(...)`,
+    `drop_duplicates()`) must answer from the divisions (`len(self.divisions) - 1`) on that path - otherwise npartitions and the graph
+    disagree: from_pandas(10 rows, 2).repartition(npartitions=20) reported 20 partitions and had 9; tail() / partitions[-1] failed.""",
+)
+def r06h(ctx):
+    model = ctx.model
+    n = 0
+    for c in model.expr_classes():
+        mem = c.members.get("npartitions")
+        if mem is None or mem.kind == "attr":
+            continue
+        fn = mem.node
+        rets = [r for r in ast.walk(fn) if isinstance(r, ast.Return) and r.value is not None]
+        defs = flow.Defs(fn)
+        raw = [r for r in rets if "operand(" in ast.unparse(defs.expand(r.value, at=r)) or any(isinstance(x, ast.Name) and any("operand(" in ast.unparse(d.value) for d in defs.reaching(x.id, r) if d.value is not None) for x in ast.walk(r.value))]
+        if not raw:
+            continue
+        lw = c.members.get("_lower")
+        dedup = lw is not None and lw.kind != "attr" and any(k in ast.unparse(lw.node) for k in ("unique(", "drop_duplicates("))
+        n += 1
+        cid = f"{c.qual}.npartitions:requested-count"
+        from_div = any(pfind_text in ast.unparse(r.value).replace(" ", "") for r in rets for pfind_text in ("len(self.divisions)-1", "len(self._divisions())-1"))
+        if not dedup:
+            ctx.ok(cid, c.module.loc(fn), "the plan never de-duplicates the divisions it builds for the requested count")
+        elif from_div:
+            ctx.ok(cid, c.module.loc(fn), "answers from the divisions where they can be de-duplicated")
+        else:
+            ctx.bad(cid, c.module.loc(fn), f"{c.qual}.npartitions answers with the requested count (`{unparse(raw[0].value)}`) although {c.name}._lower de-duplicates the divisions it interpolates: fewer partitions than reported come out (repartition(npartitions=20) of 10 integer-indexed rows has 9), so tail(), partitions[-1] and Partitions push-down index past the end")
+    ctx.floor("npartitions overrides answering with a requested count", n, 1)
